@@ -17,6 +17,11 @@ CastleSet(n) == {r \in 0..3 : (n \div (2 ^ r)) % 2 = 1}
 EvPos(e) == [board |-> [i \in 1..64 |-> e.b[i]], stm |-> e.stm, castle |-> CastleSet(e.cr),
              ep |-> e.ep, hmc |-> e.hmc, plies |-> e.pl]
 MateThreshold == 31900
+\* game phase from the board alone (knight, bishop 1; rook 2; queen 4), by the specification
+RECURSIVE PhaseR(_, _)
+PhaseR(b, i) == IF i > 64 THEN 0
+                ELSE (CASE KindOf(b[i]) \in {Knight, Bishop} -> 1 [] KindOf(b[i]) = Rook -> 2
+                        [] KindOf(b[i]) = Queen -> 4 [] OTHER -> 0) + PhaseR(b, i + 1)
 
 PosClauses(i, e) ==
     LET p == EvPos(e)
@@ -37,7 +42,7 @@ BlendClauses(i, e) ==
 ASSUME \A i \in 1..N : IF Rec[i].t = "pos" THEN PosClauses(i, Rec[i]) ELSE BlendClauses(i, Rec[i])
 ASSUME Stat("eval", [events |-> N,
                      positions |-> Cardinality({i \in 1..N : Rec[i].t = "pos"}),
-                     over24 |-> Cardinality({i \in 1..N : Rec[i].t = "pos" /\ Rec[i].phase > 24}),
+                     over24 |-> Cardinality({i \in 1..N : Rec[i].t = "pos" /\ PhaseR(Rec[i].b, 1) > 24}),
                      blends |-> Cardinality({i \in 1..N : Rec[i].t = "blend"})])
 VARIABLE x
 Init == x = 0
